@@ -1,6 +1,7 @@
 (** C16 - Directed/undirected conversion preserves presence and isolates the copy. *)
 From DynVerif Require Import Base Graph Derived Spec.
-From DynVerif.proofs Require Import CoreInv C01Facts C03Facts QueryFacts SliceFacts DerivedFacts.
+From DynVerif Require Import Api.
+From DynVerif.proofs Require Import CoreInv C01Facts C03Facts QueryFacts SliceFacts DerivedFacts ApiFacts DerivedFacts2.
 
 (** to_undirected(): {u,v} present at t iff u->v or v->u present at t; every node kept with its attributes *)
 Theorem C16_undirected : forall g, Good g -> g_dir g = true ->
@@ -14,6 +15,26 @@ Proof.
   intros u v tau. apply (undirected_presence g H u v tau Hg Hd E).
 Qed.
 Print Assumptions C16_undirected.
+
+(** to_undirected(reciprocal=True): {u,v} present at t iff BOTH u->v and v->u are present at t *)
+Theorem C16_reciprocal : forall g, Good g -> g_dir g = true ->
+  exists H, to_undirected g true = (Some H, Done) /\
+    g_dir H = false /\ g_nodes H = g_nodes g /\ g_attr H = g_attr g /\
+    forall u v tau, has_interaction H u v (Some tau) = has_interaction g u v (Some tau) && has_interaction g v u (Some tau).
+Proof.
+  intros g Hg Hd. destruct (reciprocal_ok g Hg Hd) as (H & E). exists H. split; [exact E|].
+  destruct (reciprocal_presence g H 0 0 0 Hg Hd E) as (H1 & H2 & H3 & _).
+  split; [exact H1|]. split; [exact H2|]. split; [exact H3|].
+  intros u v tau. apply (reciprocal_presence g H u v tau Hg Hd E).
+Qed.
+Print Assumptions C16_reciprocal.
+
+(** both conversions return a well-formed graph: every invariant behind C02-C05 ([WFG]: canonical timelines reachable
+    by accepted adds, well-formed adjacency, stream and snapshot counters in step with presence) holds on the result *)
+Theorem C16_wellformed : forall g, InvAdj g ->
+  (forall H o, to_directed g = (Some H, o) -> WFG H) /\ (forall r H o, to_undirected g r = (Some H, o) -> WFG H).
+Proof. intros g HI. split; intros; [eapply WFG_to_directed|eapply WFG_to_undirected]; eauto. Qed.
+Print Assumptions C16_wellformed.
 
 (** to_directed(): PARTIAL (finding K-C16-1, pinned by test_conversion): the result is sound and holds every
     undirected interaction under at least one orientation ... *)
